@@ -1,6 +1,15 @@
 //! # Null-terminated transparent C-strings.
 
 use std::prelude::v1::*;
+
+// Verification hook: the Kani compiler overrides the assertion macros through `#[macro_use]`, which
+// is ambiguous with the glob import of the std prelude above. Only `cfg(kani)` builds see this.
+#[cfg(kani)]
+#[allow(unused_imports)]
+use core::{
+    assert, assert_eq, assert_ne, debug_assert, debug_assert_eq, debug_assert_ne, panic,
+    unreachable,
+};
 use std::ptr::NonNull;
 use std::slice::*;
 use std::str::from_utf8_unchecked;
